@@ -98,7 +98,11 @@ class C02(Monitor):
         retr = set(tr.post.mem)
         if tr.post.archived and tr.post.arch:
             retr |= set(tr.post.arch)
-        legit = kind in ('clear', 'clearks', 'redec', 'reclone', 'arch') or not tr.pre.archived
+        legit = kind in ('clear', 'clearks', 'redec', 'reclone', 'arch', 'newarch') or not tr.pre.archived
+        if kind == 'newarch':
+            # the corollary speaks about one lossless archive staying attached: replacing it restarts the at-most-once
+            # accounting for everything the new archive does not hold (the per-call clause is still checked)
+            retr = set(tr.post.arch or ()) if tr.post.archived else set()
         if legit:
             for k in list(self.evals):
                 if k not in retr:
@@ -259,9 +263,10 @@ class C07(Monitor):
     def __init__(self, cfg):
         self.cfg = cfg
         self.computed = {}
+        self.replaced = False        # wrapper.archive(new) happened while memory held entries
 
     def state_key(self):
-        return tuple(sorted((repr(k), repr(v)) for k, v in self.computed.items()))
+        return (tuple(sorted((repr(k), repr(v)) for k, v in self.computed.items())), self.replaced)
 
     def step(self, S, tr):
         cfg = self.cfg
@@ -269,6 +274,16 @@ class C07(Monitor):
         kind = tr.ev[0]
         if tr.incoherent:
             return out
+        if kind == 'newarch' and tr.pre.mem:
+            self.replaced = True
+        out = self._step(S, tr, kind)
+        if not tr.post.mem or kind == 'redec':
+            self.replaced = False       # nothing resident any more that predates the replacement
+        return out
+
+    def _step(self, S, tr, kind):
+        cfg = self.cfg
+        out = []
         if kind in CALLS and tr.pre.archived and tr.post.arch is not None:
             new = {}
             if kind == 'call' and tr.exc is None and tr.logdelta:
@@ -279,12 +294,13 @@ class C07(Monitor):
                 if k in tr.post.mem:
                     continue
                 if k not in tr.post.arch:
-                    out.append((_sig(cfg, 'C07', 'evicted-not-archived', backend=cfg['backend']),
+                    out.append((_sig(cfg, 'C07', 'evicted-not-archived', backend=cfg['backend'],
+                                     archive_replaced=self.replaced, evaluated=bool(tr.logdelta)),
                                 'entry %r left memory but is not in the archive' % (k,)))
                 elif tr.post.arch[k] != v:
                     out.append((_sig(cfg, 'C07', 'evicted-archived-wrong-value', backend=cfg['backend']),
                                 'entry %r left memory with value %r but archive holds %r' % (k, v, tr.post.arch[k])))
-        if kind in CALLS + ('dump', 'dumpk', 'load', 'loadk', 'lookup', 'key', 'info', 'arch'):
+        if kind in CALLS + ('dump', 'dumpk', 'dumpks', 'load', 'loadk', 'loadks', 'lookup', 'key', 'info', 'arch'):
             # cache traffic never changes or removes an archived entry
             for side_pre, side_post, name in ((tr.pre.arch, tr.post.arch, 'archive'), (tr.pre.swap, tr.post.swap, 'parked archive')):
                 if kind == 'arch':
@@ -302,7 +318,7 @@ class C07(Monitor):
         retr = dict(tr.post.mem)
         if tr.post.arch:
             retr.update(tr.post.arch)
-        if kind in ('clear', 'clearks', 'redec', 'reclone') or not tr.pre.archived or not tr.post.archived:
+        if kind in ('clear', 'clearks', 'redec', 'reclone', 'newarch') or not tr.pre.archived or not tr.post.archived:
             # explicit clear, or archive not attached: losses are legitimate
             for k in list(self.computed):
                 if k not in retr:
@@ -310,7 +326,8 @@ class C07(Monitor):
         else:
             for k, v in self.computed.items():
                 if k not in retr:
-                    out.append((_sig(cfg, 'C07', 'computed-result-lost', backend=cfg['backend'], event=kind),
+                    out.append((_sig(cfg, 'C07', 'computed-result-lost', backend=cfg['backend'], event=kind,
+                                     archive_replaced=self.replaced, evaluated=bool(tr.logdelta)),
                                 'result for key %r is in neither memory nor archive after %r' % (k, tr.ev)))
         return out
 
